@@ -861,7 +861,7 @@ fn res_kind(r: &str) -> String {
 // ------------------------------------------------------------------------------------------
 // generation
 
-const MAPS: &[Map] = &[(0, 1000, 65536), (0, 100000, 65536), (1000, 0, 500), (5, 5, 10), (0, 4294901760, 65536), (100, 50, 100), (7, 4000000000, 1)];
+const MAPS: &[Map] = &[(0, 1000, 65536), (0, 100000, 65536), (1000, 0, 500), (5, 5, 10), (0, 4294901760, 65536), (100, 50, 100), (7, 4000000000, 1), (0, 1000, 0), (5, 77, 0)];
 const BAD_MAPS: &[Map] = &[(0, 4294967000, 65536), (4294967000, 0, 65536)];
 const PATHS: &[&str] = &["/a", "/b", "/a/b", "/a/b/c", "/b/a/c", "/d", "/a/../b", "/a/./b", "//a", "/a/", "/c/d", "/a/c", "/", "/.s", "/a/.s", "/..d", "/.s/a"];
 const ODD_PATHS: &[&str] = &["a", "", "/..", "/a/../..", "./a", "/a//b/", "/.", "/a/../a"];
@@ -911,7 +911,7 @@ impl<'r> Gen<'r> {
         let v = match self.r.below(7) {
             0 => base.wrapping_sub(1),
             1 => base,
-            2 => base + range - 1,
+            2 => (base + range).wrapping_sub(1),
             3 => base + range,
             4 => base + self.r.below(range.max(1)),
             5 => base + 5,
